@@ -97,3 +97,28 @@ PLANS["C18"] = {
     "require": [need("round_trips", 10000), need_set("invalid_text_classes", 7), need_set("lengths_mod_20", 20),
                 need("invalid_text_nil", 5000), need("form:unaligned-bitstr", 1000), need("acceptance_checks", 500)],
 }
+
+G1_RULE = ("a case is a random program from the control-flow grammar (literals, stack words, if/else/then, case/of/endof/endcase, "
+           "begin/until, begin/while/repeat, begin/repeat, break, do/loop with I J K, nested and redefined and recursive "
+           "definitions, locals, global variables; empty bodies and zero-trip loops included; 70% type-safe, 15% with one planted "
+           "build-time or run-time failure, 15% with one structurally infinite loop), rendered with random whitespace, CRLF, "
+           "comments and multi-byte text")
+
+PLANS["C01"] = {
+    "jobs": {
+        "quick": [("", "release", 300000), ("", "dev", 40000)],
+        "thorough": [("", "release", 6000000), ("", "dev", 600000)],
+    },
+    "rule": G1_RULE + "; the real eval() run is compared with the direct structural evaluation of the AST on result kind, "
+            "visible stack, variables, captured output, error class and failing token; distinct_nontrivial = distinct construct-tree "
+            "skeletons of nesting depth >= 2 that contain a loop or a case (hashed, counted by the aggregator)",
+    "assumptions": ["the reference evaluator defines the meaning of the primitive words (rot exchanges items 1 and 3, == is numeric "
+                    "only, print quotes strings) exactly as the word list documents; C01 is about control flow, not word semantics",
+                    "programs whose reference run exhausts 30000 steps outside a loop built as infinite are skipped and counted",
+                    "break inside begin..until or before while, and var inside an open structure, are rejected by the compiler "
+                    "with an error and are outside the grammar"],
+    "require": [need("succeeding_programs_compared", 20000), need("divergent_confirmed_or_checked", 2000), need_set("nesting_pairs", 70),
+                need_set("planted_kinds_matched", 10), need("empty_bodies", 10000), need("zero_trip_loops", 5000),
+                need("jump_distance:Jump:0", 100), need("jump_distance:Loop:0", 100), need("locals_in_loops", 500),
+                need("redefinitions", 1000), need("recursive_defs", 1000), need_set("opcodes", 17)],
+}
